@@ -111,14 +111,17 @@ def lexAll (input : CBytes) : LexResult := lex (input.length + 1) .initial input
 
 /-! ### settings -/
 
+/-- `limits.DefaultAppTimeout` (tied to the regenerated constant in Props/C19) -/
+def DefaultAppTimeoutNs : Nat := 600000000000
+
 /-- the settings modelled (struct fields of `Config`) -/
 inductive Field where
   | port | addr | proxy | pidfile | logfile | loglevel | auditlog | cafile | capath | detectAws | maxFiles
-  | foreground | pprof | configFile | noPidfile | agent
+  | foreground | pprof | configFile | noPidfile | agent | appTimeout
 deriving Repr, DecidableEq, Inhabited
 
 inductive Kind where
-  | str | bool | uint | int | level
+  | str | bool | uint | int | level | timeout
 deriving Repr, DecidableEq
 
 def Field.kind : Field → Kind
@@ -126,19 +129,55 @@ def Field.kind : Field → Kind
   | .maxFiles => .uint
   | .pprof => .int
   | .loglevel => .level
+  | .appTimeout => .timeout
   | _ => .str
 
 /-- keyword of the configuration file for a field (`config:"…"` tags); `none` = not settable from the file -/
 def fileKeyword : List (String × Field) :=
   [("port", .port), ("address", .addr), ("proxy", .proxy), ("pidfile", .pidfile), ("logfile", .logfile),
    ("loglevel", .loglevel), ("auditlog", .auditlog), ("ssl_ca_bundle", .cafile), ("ssl_ca_path", .capath),
-   ("utilization.detect_aws", .detectAws), ("rlimit_files", .maxFiles)]
+   ("utilization.detect_aws", .detectAws), ("rlimit_files", .maxFiles), ("app_timeout", .appTimeout)]
 
 def str (b : CBytes) : String := String.ofList (b.map (fun x => Char.ofNat x.toNat))
 
 def lower (b : CBytes) : CBytes := b.map (fun x => if 0x41 ≤ x && x ≤ 0x5A then x + 0x20 else x)
 
 def allDigits (b : CBytes) : Bool := !b.isEmpty && b.all isDigitB
+
+/-- nanoseconds per unit of `time.ParseDuration` -/
+def unitNs (u : String) : Option Nat :=
+  match u with
+  | "ns" => some 1 | "us" => some 1000 | "ms" => some 1000000 | "s" => some 1000000000
+  | "m" => some 60000000000 | "h" => some 3600000000000 | _ => none
+
+/-- `time.ParseDuration` for whole numbers: one or more `<digits><unit>` groups (no fractions, no sign; fuel = length) -/
+def parseGroups : Nat → List Char → Option Nat
+  | 0, _ => none
+  | fuel + 1, cs =>
+    let ds := cs.takeWhile Char.isDigit
+    let rest := cs.dropWhile Char.isDigit
+    let us := rest.takeWhile (fun c => !c.isDigit)
+    let rest' := rest.dropWhile (fun c => !c.isDigit)
+    if ds.isEmpty || ds.length > 9 then none else
+    match unitNs (String.ofList us) with
+    | none => none
+    | some k =>
+      let v := (String.ofList ds).toNat! * k
+      if rest'.isEmpty then some v else (parseGroups fuel rest').map (· + v)
+
+/-- `config.Timeout.UnmarshalText`: a value that ends in a digit gets the unit "ms"; then `time.ParseDuration` (whole
+numbers; an optional sign; "0" alone is zero).  The stored value is the number of nanoseconds. -/
+def parseTimeout (v : CBytes) : Option Int :=
+  let cs := (str v).toList
+  let cs := match cs.getLast? with
+    | some c => if c.isDigit then cs ++ ['m', 's'] else cs
+    | none => cs
+  let (neg, body) := match cs with
+    | '-' :: r => (true, r)
+    | '+' :: r => (false, r)
+    | r => (false, r)
+  if body == ['0'] then some 0 else
+  (parseGroups (body.length + 1) body).map (fun n => if neg then -(n : Int) else (n : Int))
 
 /-- typed assignment (`unmarshalValue` / `flag.Value.Set`): the canonical stored value, or `none` = error.
     `fromFile` selects the file's conventions (empty value = zero value; yes/no/on/off words). -/
@@ -166,6 +205,7 @@ def convert (k : Kind) (fromFile : Bool) (v : CBytes) : Option CBytes :=
     else if s == "info" || s == "" then some "info".toUTF8.toList
     else if s == "debug" || s == "verbose" || s == "verbosedebug" then some "debug".toUTF8.toList
     else none
+  | .timeout => (parseTimeout v).map (fun n => (toString n).toUTF8.toList)
 
 abbrev Cfg := List (Field × CBytes)
 
@@ -174,7 +214,8 @@ def Cfg.set (c : Cfg) (f : Field) (v : CBytes) : Cfg := (f, v) :: c.filter (·.1
 
 def defaultCfg : Cfg :=
   [(.loglevel, "info".toUTF8.toList), (.maxFiles, "2048".toUTF8.toList), (.detectAws, "true".toUTF8.toList),
-   (.foreground, "false".toUTF8.toList), (.noPidfile, "false".toUTF8.toList), (.agent, "false".toUTF8.toList), (.pprof, "0".toUTF8.toList)]
+   (.foreground, "false".toUTF8.toList), (.noPidfile, "false".toUTF8.toList), (.agent, "false".toUTF8.toList), (.pprof, "0".toUTF8.toList),
+   (.appTimeout, (toString DefaultAppTimeoutNs).toUTF8.toList)]
 
 abbrev Assign := List (Field × CBytes)
 
